@@ -560,6 +560,112 @@ static void run_purge_holes(State& S) {
     if (c1.purge_calls != c0.purge_calls) vf_trip("purged-although-disabled", "C18", "purge_delay=-1 but %llu purge calls were made without a forced collect", (unsigned long long)(c1.purge_calls - c0.purge_calls));
   }
   S.sm.verify_all("after purging");
+  // phase 2 (purge by decommit only): the rest is freed as well, so every segment except the one that holds the long-lived block goes back to its arena as a whole --
+  // some of them only partly committed by now (debug/secure builds really decommit purged pages; lazily committed segments).  After the arena delay and non-forced
+  // collects every range in those segments must be returned.  (With purge by reset a partly committed range is deliberately left alone by the allocator.)
+  if (d > 0 && mi_option_is_enabled(mi_option_purge_decommits) && !mi_option_is_enabled(mi_option_disallow_arena_alloc)) {
+    const uintptr_t keepseg = (uintptr_t)keep->p & ~(uintptr_t)(32 * MiB - 1);
+    std::vector<Rng> all = freed;
+    for (vf::Blk* x : live) { all.push_back(rng_of(x)); do_free(S, x); }
+    live.clear();
+    std::vector<ArenaArea> as = arena_areas();
+    const long ad = d * (mult > 0 ? mult : 1);
+    const int steps = 4 + 2 * (int)as.size();
+    for (int st = 0; st < steps; st++) { tick(S, ad + 1); small_activity(S, &r, 10); vf_cur_what = "non-forced collect"; mi_collect(false); }
+    g_px_rounds++;
+    for (const Rng& g : all) {
+      if (g.seg == keepseg || !in_arena(as, g.lo, g.lo + g.len)) continue;
+      size_t res = vf_os_committed_resident(g.lo, g.len); g_px_checked++; g_px_bytes += g.len;
+      if (res > 0)
+        vf_trip("not-purged-after-delay", "C18", "purge_delay=%ld x arena multiplier %ld: every page of the segment at %p was freed (some long ago, the rest %d arena delays ago), so the segment went back to "
+                "its arena, but %zu bytes of the former page at %p are still committed and resident after %d non-forced collects", d, mult, (void*)g.seg, steps, res, (void*)g.lo, steps);
+    }
+  }
+  free_all(S);
+}
+
+// "switch": purging is switched off at run time (mi_option_set(purge_delay, -1)) after segments and pending purges exist: from then on nothing may be purged without a forced collect
+static void run_purge_switch(State& S) {
+  add_result_printer(&purgex_print);
+  S.sm.refutes_generic = "C01";
+  const long d = mi_option_get(mi_option_purge_delay), mult = mi_option_get(mi_option_arena_purge_mult);
+  g_p_delay = d; g_p_mult = mult;
+  vf_rng_t r; vf_rng_seed(&r, S.cfg.seed);
+  vf::Blk* keep = do_alloc(S, EP_malloc, 100); (void)keep;
+  std::vector<vf::Blk*> pages, huges;
+  for (int i = 0; i < 90; i++) { vf::Blk* b = do_alloc(S, EP_malloc, 130 * KiB + (size_t)vf_rng_below(&r, 500 * KiB)); if (b) { memset(b->p, 0x5a, b->u); S.sm.fill(b); pages.push_back(b); } }
+  for (int i = 0; i < 4; i++) { vf::Blk* b = do_alloc(S, EP_malloc, 17 * MiB + (size_t)vf_rng_below(&r, 8 * MiB)); if (b) { memset(b->p, 0x5b, b->u); S.sm.fill(b); huges.push_back(b); } }
+  // some purges are pending (scheduled, not expired) when the switch happens
+  for (size_t i = 0; i < pages.size(); i += 3) { do_free(S, pages[i]); pages[i] = nullptr; }
+  if (!huges.empty()) { do_free(S, huges.back()); huges.pop_back(); }
+  vf_cur_what = "mi_option_set(purge_delay,-1)";
+  mi_option_set(mi_option_purge_delay, -1);
+  vf_os_counts_t c0; vf_os_get_counts(&c0);
+  g_px_rounds = 1;
+  for (int round = 0; round < 3; round++) {
+    tick(S, 5000);
+    for (size_t i = (size_t)round + 1; i < pages.size(); i += 3) if (pages[i]) { do_free(S, pages[i]); pages[i] = nullptr; g_px_checked++; break; }
+    for (size_t i = 1; i < pages.size(); i += 3) if (pages[i] && vf_rng_chance(&r, 1, 2)) { do_free(S, pages[i]); pages[i] = nullptr; g_px_checked++; }
+    if (!huges.empty()) { do_free(S, huges.back()); huges.pop_back(); g_px_checked++; }
+    small_activity(S, &r, 40);
+    vf_cur_what = "non-forced collect"; mi_collect(false);
+  }
+  vf_os_counts_t c1; vf_os_get_counts(&c1);
+  if (c1.purge_calls != c0.purge_calls)
+    vf_trip("purged-although-disabled", "C18", "purge_delay was set to -1 at run time (it was %ld when the segments were created); since then %llu purge calls (%llu bytes) were made by frees, ordinary activity "
+            "and non-forced collects", d, (unsigned long long)(c1.purge_calls - c0.purge_calls), (unsigned long long)(c1.purge_bytes - c0.purge_bytes));
+  mi_option_set(mi_option_purge_delay, d);
+  S.sm.verify_all("after switch");
+  free_all(S);
+}
+
+// "abandoned": a thread terminates with live blocks; this thread frees some of them (the segment stays abandoned: reclaim-on-free is off, nothing here needs a fresh segment).
+// A non-forced collect releases the pages that became empty; after the delay another non-forced collect must have returned them.
+static void run_purge_abandoned(State& S) {
+  add_result_printer(&purgex_print);
+  S.sm.refutes_generic = "C01";
+  const long d = mi_option_get(mi_option_purge_delay), mult = mi_option_get(mi_option_arena_purge_mult);
+  g_p_delay = d; g_p_mult = mult;
+  vf_rng_t r; vf_rng_seed(&r, S.cfg.seed);
+  vf::Blk* keep = do_alloc(S, EP_malloc, 100); (void)keep;
+  small_activity(S, &r, 30);
+  struct TB { void* p; size_t n; };
+  std::vector<TB> out;
+  const size_t cnt = 12 + (size_t)vf_rng_below(&r, 20);
+  uint64_t tseed = vf_rng_next(&r);
+  vf_cur_what = "thread with live blocks terminates";
+  try {
+    std::thread t([&]() {
+      vf_rng_t tr; vf_rng_seed(&tr, tseed);
+      for (size_t i = 0; i < cnt; i++) { size_t n = 130 * KiB + (size_t)vf_rng_below(&tr, 400 * KiB); void* p = mi_malloc(n); if (p) { memset(p, 0x6c, n); TB tb; tb.p = p; tb.n = n; out.push_back(tb); } }
+    });
+    t.join();
+  } catch (const std::system_error& e) { vf_trip("harness", "", "cannot create a thread: %s", e.what()); }
+  std::vector<vf::Blk*> theirs;
+  for (auto& tb : out) { vf::Blk* b = accept_foreign(S, tb.p, tb.n); if (b) theirs.push_back(b); }
+  struct Rng { uintptr_t lo; size_t len; };
+  std::vector<Rng> freed;
+  vf_os_counts_t c0; vf_os_get_counts(&c0);
+  // free every other block, and never the last one (the segment must stay in use)
+  for (size_t i = 0; i + 1 < theirs.size(); i += 2) {
+    vf::Blk* x = theirs[i];
+    Rng g; g.lo = ((uintptr_t)x->p + 4095) & ~(uintptr_t)4095; g.len = (x->u - (g.lo - (uintptr_t)x->p)) & ~(size_t)4095;
+    forget_foreign(S, x); do_free(S, x); freed.push_back(g);
+  }
+  g_px_rounds = 1;
+  vf_cur_what = "non-forced collect"; mi_collect(false);         // the empty pages of the abandoned segment are released here (and their purge is scheduled, or done at once with delay 0)
+  if (d > 0) { for (int k = 0; k < 3; k++) { tick(S, 3 * d + 10); small_activity(S, &r, 10); vf_cur_what = "non-forced collect"; mi_collect(false); } }
+  vf_os_counts_t c1; vf_os_get_counts(&c1);
+  if (d < 0) {
+    if (c1.purge_calls != c0.purge_calls) vf_trip("purged-although-disabled", "C18", "purge_delay=-1 but %llu purge calls were made without a forced collect", (unsigned long long)(c1.purge_calls - c0.purge_calls));
+  }
+  else for (const Rng& g : freed) {
+    size_t res = vf_os_committed_resident(g.lo, g.len); g_px_checked++; g_px_bytes += g.len;
+    if (res > 0)
+      vf_trip("not-purged-after-delay", "C18", "purge_delay=%ld: a %zu byte page at %p in a segment abandoned by a terminated thread was freed by this thread; after %s non-forced collects "
+              "%zu bytes of it are still committed and resident", d, g.len, (void*)g.lo, d > 0 ? "the delay passed 9 times with 4" : "1", res);
+  }
+  S.sm.verify_all("after purging");
   free_all(S);
 }
 
@@ -570,6 +676,8 @@ void run_os_profile(State& S) {
   else if (S.cfg.scenario == "arenas") run_purge_arenas(S);
   else if (S.cfg.scenario == "trickle") run_purge_trickle(S);
   else if (S.cfg.scenario == "holes") run_purge_holes(S);
+  else if (S.cfg.scenario == "switch") run_purge_switch(S);
+  else if (S.cfg.scenario == "abandoned") run_purge_abandoned(S);
   else run_purge(S);
 }
 
